@@ -435,8 +435,25 @@ func RunMembership(w *World, idx int) {
 		case 1: // sync + verify the WO replica
 			for _, f := range fs {
 				if modes[f] == types.WO && w.SyncFrom(f) {
-					w.Verify(f)
+					scripted := r.Chance(25)
+					if scripted {
+						// the last step of the verification fails on the replica
+						f.mu.Lock()
+						f.RevFail = true
+						f.mu.Unlock()
+						w.rec(Step{K: "next-set-revision-counter-fails", Addr: f.Addr})
+						w.Res.Count("verify_last_step_failures_scripted", 1)
+					}
+					err := w.Verify(f)
+					f.mu.Lock()
+					f.RevFail = false
+					f.mu.Unlock()
 					after = "verify"
+					if err != nil && !w.Dead {
+						if _, m := w.Attached(); m[f] == types.RW {
+							w.FailAny([]string{"C18", "C07"}, "verify-failed-but-listed-RW", fmt.Sprintf("VerifyRebuildReplica(%s) returned %q, yet the controller lists the replica RW", f.Addr, err.Error()))
+						}
+					}
 				}
 			}
 		case 2: // explicit removal
